@@ -54,6 +54,10 @@ var baseCorpus = []string{
 	"select key, substr(key, 1, 2), substr(value, 0, 100) where key ^= ''",
 	"select `key`, key as `my key` where `my key` ^= 'k'",
 	"select json(value) as j, j['a'] where key ^= 'j'",
+	// numbers below zero (the language has no negative literal) in every position that takes a number
+	"select substr(value, 0 - 1, 2), substr(value, 1, 0 - 2), list(1, 2)[0 - 1], split(value, ',')[0 - 1], int(value) / (0 - 1) where key ^= 'k' limit 0, 0",
+	"select quantile(int(value), 0 - 0.5), quantile(float(value), 0), quantile(int(value), 1) where key ^= 'k'",
+	"select value, quantile(int(value), 1 - 0.5) as q, sum(0 - int(value)), min(0 - 1.5), avg(int(value) * (0 - 1)) where key ^= 'k' group by value order by q",
 }
 
 var (
